@@ -105,19 +105,23 @@ Qed.
 Print Assumptions C12_reduce_vertical_core.
 
 (* ---------- further refutations (faithful model vs spec), each a known-finding class *)
-(* column-major operand: data() is walked in storage order *)
-Theorem C12_column_major_refuted : exists (N rows cols : nat) (logical out0 : list nat),
-  0 < N /\ length logical = rows * cols /\ length out0 = length logical /\
-  eval_unary_gen N S (colmajor2 0 rows cols logical) logical out0 <> Some (spec_unary S logical).
-Proof. exists 2, 2, 2, [1; 2; 3; 4], [0; 0; 0; 0]. repeat split; try lia. vm_compute. discriminate. Qed.
-Print Assumptions C12_column_major_refuted.
+(* an output or operand that is not row-major (column_major_ndarray_t): every eval_* arm refuses at its
+   layout guard and operator()() evaluates the view with the default evaluator — the result IS the
+   scalar evaluator's *)
+Theorem C12_not_row_major_falls_back : forall (A : Type) (N : nat) (scalar : list A),
+  (forall (f : A -> A) inp out0, eval_unary_top N false f inp out0 scalar = Done scalar) /\
+  (forall (f : A -> A -> A) o ls rs lhs rhs out0, eval_binary_top N f false o ls rs lhs rhs out0 scalar = Done scalar) /\
+  (forall (f : A -> A -> A) ls rs lhs rhs out0, eval_outer_top N f false ls rs lhs rhs out0 scalar = Done scalar) /\
+  (forall (f : A -> A -> A) z e s sk ax init inp, eval_reduction_top N f z e false s sk ax init inp scalar = Done scalar).
+Proof. intros A N scalar. repeat split; intros; reflexivity. Qed.
+Print Assumptions C12_not_row_major_falls_back.
 
 (* operands of different rank (or an n-d broadcast): the simd path refuses and operator()() evaluates
    the view with the default evaluator — the result IS the scalar evaluator's, whatever it is *)
 Theorem C12_binary_refused_falls_back : forall (A : Type) (N : nat) (f : A -> A -> A) (o ls rs : list nat) (lhs rhs out0 scalar : list A),
   list_eqb ls rs = false -> (length ls =? length rs) && (length rs =? 2) = false ->
   eval_binary N f o ls rs lhs rhs out0 = Refused /\
-  eval_binary_top N f o ls rs lhs rhs out0 scalar = Done scalar.
+  eval_binary_top N f true o ls rs lhs rhs out0 scalar = Done scalar.
 Proof.
   intros A N f o ls rs lhs rhs out0 scalar H1 H2. unfold eval_binary_top, eval_binary. rewrite H1, H2. split; reflexivity.
 Qed.
@@ -147,7 +151,7 @@ Example C12_repaired_1x1_operand : valid_operand 2 1 (2, 1) /\ valid_operand 2 1
 Proof. repeat split; simpl; auto. Qed.
 (* the inputs of the two later repairs: (4) refused operands fall back, (5) initial is folded in *)
 Example C12_repaired_refused :
-  eval_binary_top 4 Nat.add [1; 5] [5] [1; 5] [1;2;3;4;5] [1;2;3;4;5] [0;0;0;0;0]
+  eval_binary_top 4 Nat.add true [1; 5] [5] [1; 5] [1;2;3;4;5] [1;2;3;4;5] [0;0;0;0;0]
     (spec_binary_bc Nat.add 0 [1; 5] [1; 5] [1; 5] [1;2;3;4;5] [1;2;3;4;5]) = Done [2; 4; 6; 8; 10].
 Proof. reflexivity. Qed.
 Example C12_repaired_initial :
@@ -155,4 +159,12 @@ Example C12_repaired_initial :
   /\ spec_reduce_full Nat.add 0 (Some 100) [1;2;3;4;5;6] = 121
   /\ eval_reduction 4 Nat.add 0 0 [2; 3] [2; 1] (Some (false, 1)) (Some 100) [1;2;3;4;5;6] = Done [106; 115]
   /\ spec_reduce_axis Nat.add 0 (Some 100) 2 3 1 [1;2;3;4;5;6] = [106; 115].
+Proof. repeat split; reflexivity. Qed.
+(* (3) why the layout guard is needed: the packed loop on a column-major buffer walks storage order
+   (the refutation before the repair); with the guard the call falls back *)
+Example C12_layout_guard_needed :
+  eval_unary_gen 2 S (colmajor2 0 2 2 [1; 2; 3; 4]) [1; 2; 3; 4] [0; 0; 0; 0] = Some [2; 4; 3; 5]
+  /\ spec_unary S [1; 2; 3; 4] = [2; 3; 4; 5]
+  /\ eval_unary_top 2 false S (colmajor2 0 2 2 [1; 2; 3; 4]) [0; 0; 0; 0] (spec_unary S [1; 2; 3; 4]) = Done [2; 3; 4; 5]
+  /\ eval_unary_top 2 true S [1; 2; 3; 4] [0; 0; 0; 0] [] = Done [2; 3; 4; 5].
 Proof. repeat split; reflexivity. Qed.
